@@ -35,6 +35,20 @@ theorem C17_rayleigh_le_opNorm (B : E →L[ℝ] E) (maxiter : Nat) (v0 : E) (hv0
   exact powerLoop_pred B (· ≤ ‖B‖) (norm_nonneg _) (fun w hw => rq_le_opNorm B w hw) maxiter none _
     (normalize_ne_zero v0 hv0) (by intro m' hm'; cases hm') mu hp
 
+/-- … and two-sided: for *any* bounded operator (not necessarily symmetric or positive — `power_iteration` accepts every
+    `LinearOperator`) the estimate satisfies `|mu| ≤ ‖B‖`. -/
+theorem C17_rayleigh_abs_le_opNorm (B : E →L[ℝ] E) (maxiter : Nat) (v0 : E) (hv0 : v0 ≠ 0) (mu : ℝ) (v : E)
+    (h : powerIteration (opsOf B) maxiter v0 = .ok (mu, v)) : |mu| ≤ ‖B‖ := by
+  obtain ⟨_, hp⟩ := powerIteration_ok B maxiter v0 mu v h
+  refine powerLoop_pred B (fun m => |m| ≤ ‖B‖) (by simp) (fun w hw => ?_) maxiter none _
+    (normalize_ne_zero v0 hv0) (by intro m' hm'; cases hm') mu hp
+  unfold rq
+  have hn : 0 < ‖w‖ := norm_pos_iff.2 hw
+  rw [abs_div, abs_of_pos (mul_pos hn hn), div_le_iff₀ (mul_pos hn hn)]
+  calc |inner ℝ w (B w)| ≤ ‖w‖ * ‖B w‖ := abs_real_inner_le_norm _ _
+    _ ≤ ‖w‖ * (‖B‖ * ‖w‖) := by gcongr; exact B.le_opNorm w
+    _ = ‖B‖ * (‖w‖ * ‖w‖) := by ring
+
 /-- For a Gram operator `B = AᴴA` (what `operator_norm` iterates) every estimate lies in `[0, ‖A‖²]`. -/
 theorem C17_rayleigh_le (B : E →L[ℝ] E) (A : E →L[ℝ] F) (hG : IsGram B A) (maxiter : Nat) (v0 : E)
     (hv0 : v0 ≠ 0) (mu : ℝ) (v : E) (h : powerIteration (opsOf B) maxiter v0 = .ok (mu, v)) :
